@@ -1866,6 +1866,8 @@ def run(tier):
     from . import c02
     sub2 = Check('C02', 'other', tier, [], [])
     chk.guard(c02.rule_r6, sub2, prog)
+    from . import c16
+    chk.guard(c16.rule_r9, sub2, prog)
     chk.adopt('C15.R7', 'the symbol tables consulted by the freshness tests '
               'are reset and rebuilt from the current input before every '
               'sweep (shared with C02.R6 / C16.R6): a symbol introduced by '
